@@ -471,7 +471,7 @@ func c04Layers(chk *fw.Check) (evals, nontrivial int, outcomes map[string]int) {
 				doc, _, chain, _, _, _ := c04Doc(c)
 				// the identity which signed the candidate list
 				_, _, _, signer := sgs[c.Signer].Make("ec")
-				for _, pos := range []string{"extra-last", "extra-second"} {
+				for _, pos := range []string{"extra-last", "extra-second", "signer-is-a-trusted-OCSP-responder"} {
 					var v, plain Verdict
 					var perr string
 					res := seqWorld(func() {
@@ -482,8 +482,19 @@ func c04Layers(chk *fw.Check) (evals, nontrivial int, outcomes map[string]int) {
 						if disk {
 							storage = "disk"
 						}
-						w := NewTW(TWOpt{Mode: "crl_only", Net: net, CRL: &config.CRLConfig{WorkDir: dir, StorageType: storage, SignatureValidationMode: "verify", UpdateInterval: "30m",
-							CDPConfig: &config.CDPConfig{CRLCDPStrict: true}}})
+						opt := TWOpt{Mode: "crl_only", Net: net, CRL: &config.CRLConfig{WorkDir: dir, StorageType: storage, SignatureValidationMode: "verify", UpdateInterval: "30m",
+							CDPConfig: &config.CDPConfig{CRLCDPStrict: true}}}
+						if pos == "extra-second" {
+							// the signature validation mode is left out here: verify is the documented default
+							opt.CRL.SignatureValidationMode = ""
+						}
+						if pos == "signer-is-a-trusted-OCSP-responder" {
+							// both checks are on; the signer's certificate is configured - as trusted OCSP responder certificate.
+							// Whom the OCSP side trusts to sign responses is not whom the CRL side trusts to sign CRLs.
+							opt.Mode = "prefer_ocsp"
+							opt.OCSP = &config.OCSPConfig{TrustedResponderCertsFiles: []string{WritePEM(dir, "responder.pem", signer.Cert)}}
+						}
+						w := NewTW(opt)
 						if err := w.Provision(); err != nil {
 							perr = err.Error()
 							return
@@ -494,7 +505,9 @@ func c04Layers(chk *fw.Check) (evals, nontrivial int, outcomes map[string]int) {
 						for _, x := range chain[0] {
 							raw = append(raw, x.Raw)
 						}
-						if pos == "extra-last" {
+						if pos == "signer-is-a-trusted-OCSP-responder" {
+							// nothing is sent along
+						} else if pos == "extra-last" {
 							raw = append(raw, signer.Cert.Raw)
 						} else {
 							raw = append(raw[:1:1], append([][]byte{signer.Cert.Raw}, raw[1:]...)...)
